@@ -142,8 +142,8 @@ def evaluate(node, labels: dict):
             raise Undefined('bitwise on non-integer')
         a, b = int(a), int(b)
         if op in ('<<', '>>'):
-            if not 0 <= b <= 63:
-                raise Undefined('shift count outside 0..63')
+            if not 0 <= b <= 256:
+                raise Undefined('shift count outside 0..256')
             if a < 0:
                 raise Undefined('shift of a negative value')
             return Fraction(a << b if op == '<<' else a >> b), False
@@ -247,7 +247,7 @@ def literals(max_value=(1 << 64) - 1, notations=('dec', 'hex$', 'hex0x', 'hexH',
 
 
 def expressions(labels=(), max_depth=5, max_value=(1 << 64) - 1, allow_div=True, chars=SAFE_CHARS,
-                funcs=True, allow_neg=True):
+                funcs=True, allow_neg=True, allow_shift=True, div_bias=False):
     """Explicit-depth recursive generator (st.recursive yields mostly tiny trees)."""
     lits = literals(max_value, chars=chars)
     atom_alts = [lits, lits]
@@ -255,9 +255,14 @@ def expressions(labels=(), max_depth=5, max_value=(1 << 64) - 1, allow_div=True,
         atom_alts.append(st.sampled_from(sorted(labels)).map(lambda n: ['lab', n]))
     atom = st.one_of(atom_alts)
     ops = OPS if allow_div else [o for o in OPS if o not in '/%']
+    if not allow_shift:
+        ops = [o for o in ops if o not in ('<<', '>>')]
+    if div_bias:
+        ops = ops + ['/', '/', '/', '%']
     op_st = st.sampled_from(ops)
-    small = st.integers(0, 12).map(lambda v: ['num', v, 'dec'])
-    kinds = ['bin'] * 7 + ['shift'] + ['par']
+    small = st.one_of(st.integers(0, 12), st.integers(0, 12), st.integers(0, 12),
+                      st.sampled_from([31, 32, 33, 63, 64, 65, 66, 72, 100, 127, 128, 130])).map(lambda v: ['num', v, 'dec'])
+    kinds = ['bin'] * 7 + (['shift'] if allow_shift else []) + ['par']
     if allow_neg:
         kinds += ['neg'] * 2
     if funcs:
